@@ -436,6 +436,7 @@ int main(int argc, char** argv) {
         auto run_one = [&](const std::string& desc, const std::string& bytes, Result& R) {
             set_note("desc=" + desc + ";hex=" + (bytes.size() <= 3800 ? hex(bytes) : std::string("<long>")));
             std::string o = consume::all(bytes);
+            if (o.find("CURSOR-PAST-END") != std::string::npos) R.violation("mutate|decoder-cursor-beyond-buffered-data", "after a decoder call the read cursor is beyond the end of the buffered data (bytes that were never read from the input were consumed) [" + desc + "]", "desc=" + desc + ";hex=" + (bytes.size() <= 3800 ? hex(bytes) : std::string("<long>")));
             R.count("traces"); if (o.find("hdr") != std::string::npos) R.count("nontrivial"); R.outcome(o);
         };
         if (!a.replay.empty()) {
@@ -452,7 +453,7 @@ int main(int argc, char** argv) {
                 else return done(2);
             } else bytes = unhex(hx);
             Pool rp(1, 60);
-            rp.run(1, [&](uint64_t, Result& R) { consume::all(bytes); R.count("traces"); },
+            rp.run(1, [&](uint64_t, Result& R) { std::string o = consume::all(bytes); if (o.find("CURSOR-PAST-END") != std::string::npos) R.violation("mutate|decoder-cursor-beyond-buffered-data", "after a decoder call the read cursor is beyond the end of the buffered data", s); R.count("traces"); },
                    [&](uint64_t, const std::string& d, Result& R) { R.violation("mutate|" + crash_key(d), d.substr(0, 2500), s); }, total);
             return done(total.viol.empty() ? 0 : 1);
         }
